@@ -722,6 +722,63 @@ def run_respelled_sessions(res, tier, seed):
                                   f"addressed under two URI spellings: {what[variant]})", replay)
 
 
+def run_sibling_package_sessions(res, tier, seed):
+    """several packages side by side whose directory names begin like one another (`app`, `app2`, `app-core`, `apps`), below the
+    workspace folder: documents of two of them are opened one after the other (both orders), edited and queried.  The server
+    stays alive, answers every request once and holds the editor's text for every document (oracle only)."""
+    lsp.build_glas()
+    n = 8 if tier == "quick" else 120
+    base = os.path.join(common.ROOT, "work", f"c15s-{os.getpid()}")
+    shutil.rmtree(base, ignore_errors=True)
+    names = ["app", "app2", "app-core", "apps", "ap", "application"]
+    jobs = []
+    for i in range(n):
+        rng = random.Random(seed * 15485863 + i)
+        root = os.path.join(base, f"w{i}")
+        docs = gen_sequence(random.Random(1), root)[0]
+        a, b = rng.sample(names, 2)
+        if i % 2 == 0 and not (b.startswith(a) or a.startswith(b)):
+            a, b = "app", rng.choice(["app2", "apps", "app-core", "application"])
+        if i % 4 >= 2:
+            a, b = b, a
+        extra, sib = {}, []
+        for j, nm in enumerate((a, b)):
+            extra[f"{root}/{nm}/gleam.toml"] = f'name = "{nm.replace("-", "_")}"\n'
+            t = f"pub fn in_{nm.replace('-', '_')}() {{ {j} }}\nfn second() {{ 2 }}\n"
+            extra[f"{root}/{nm}/src/m{j}.gleam"] = t
+            sib.append((Doc(f"f7{j}", f"file://{root}/{nm}/src/m{j}.gleam"), t))
+        docs = docs + [d for d, _ in sib]
+        seq = []
+        for j, (d, t) in enumerate(sib):
+            seq.append(("open", d, t))
+            seq.append(("req", d, "textDocument/hover", 0, 8, 800 + 10 * i + j))
+        seq.append(("change", sib[1][0], [((0, 0, 0, 0), "// edited\n", "valid")]))
+        seq.append(("req", sib[0][0], "textDocument/hover", 0, 8, 805 + 10 * i))
+        seq.append(("req", sib[1][0], "textDocument/hover", 1, 8, 806 + 10 * i))
+        client = {sib[0][0].key: sib[0][1], sib[1][0].key: "// edited\n" + sib[1][1]}
+        jobs.append((root, docs, seq, client, extra, (a, b)))
+    try:
+        observations = common.parallel_map(lambda j: run_sequence(j[0], j[1], j[2], disk_extra=j[4]), jobs, workers=min(common.NCPU, 8))
+    finally:
+        shutil.rmtree(base, ignore_errors=True)
+    res.cov["sibling_package_sessions"] = n
+    for (root, docs, seq, client, extra, (a, b)), obs in zip(jobs, observations):
+        res.cov["evaluations"] += len(seq)
+        replay = {"packages": [a, b], "sequence": [describe(op) for op in seq], "observation": {k: v for k, v in obs.items() if k != "texts"}, "texts": obs.get("texts")}
+        if not obs["alive"]:
+            kind = seq[obs["died_at"]][0] if isinstance(obs["died_at"], int) and obs["died_at"] < len(seq) else "initialize"
+            res.add_violation("C15/server-died/packages-with-names-that-begin-alike", f"the server process ended after message {obs['died_at']} ({kind}) of a session over the sibling "
+                              f"packages `{a}` and `{b}` (opened in this order): {obs.get('stderr', '')[-200:]}", replay)
+            continue
+        for rid, v in obs["responses"].items():
+            if v is None:
+                res.add_violation("C15/request-unanswered", f"request {rid} got no response (sibling packages `{a}`, `{b}`)", replay)
+        for key, text in client.items():
+            got = obs["texts"].get(key)
+            if got != p_text.strip_cr(text):
+                res.add_violation("C15/text-diverged", f"server text {got!r} != editor text {p_text.strip_cr(text)!r} for {key} (sibling packages `{a}`, `{b}`)", replay)
+
+
 def run_request_burst(res, tier, seed):
     """more slow requests in flight than the server allows at a time (lib.rs: ConcurrencyLayer::new(available_parallelism)):
     all of them must still be answered, and a message sent afterwards must be handled"""
@@ -925,6 +982,7 @@ def run(prop, res, tier, seed):
     run_request_burst(res, tier, seed)
     run_vanish_sessions(res, tier, seed)
     run_respelled_sessions(res, tier, seed)
+    run_sibling_package_sessions(res, tier, seed)
     run_vfs_ids(res, tier, seed)
     if res.disagreements:
         rq, a, b = res.disagreements[0]
